@@ -425,3 +425,218 @@ func Select(hasDefault bool, chans ...interface{}) int {
 }
 
 func exitGoroutine() { runtime.Goexit() }
+
+// ------------------------------------------------------------------ channels
+//
+// Channel operations of the packages rewritten with the channel option (resp, server).  In Free
+// mode they are the native operations.  Under the controlled scheduler a channel is emulated: the
+// values travel through a queue owned by the world (the native channel object only serves as the
+// identity, and is closed natively too when Close is called, so that un-instrumented observers see
+// it), every operation is a scheduling point, and blocking is enabledness:
+//
+//	send on an unbuffered channel: the value is offered, the sender then waits until it was taken
+//	send on a buffered channel:    enabled while the queue is shorter than the capacity
+//	receive:                       enabled when a value is queued, the channel is closed, or - for a
+//	                               channel nobody sends to through the shim (ctx.Done(), a timer) -
+//	                               when the native channel is closed or holds a buffered item
+
+type vchan struct {
+	ref    interface{} // keeps the channel alive, so that its address is not reused
+	q      []interface{}
+	sent   int
+	taken  int
+	closed bool
+	cap    int
+}
+
+func chanOf(w *rt.World, ch interface{}) (*vchan, reflect.Value) {
+	rv := reflect.ValueOf(ch)
+	if !rv.IsValid() || rv.IsNil() {
+		return nil, rv
+	}
+	if w.ChanState == nil {
+		w.ChanState = map[uintptr]interface{}{}
+	}
+	p := rv.Pointer()
+	if vc, ok := w.ChanState[p]; ok {
+		return vc.(*vchan), rv
+	}
+	vc := &vchan{ref: ch, cap: rv.Cap()}
+	w.ChanState[p] = vc
+	return vc, rv
+}
+
+func (vc *vchan) ready(rv reflect.Value) bool {
+	if vc == nil {
+		return false // nil channel: blocks for ever
+	}
+	return len(vc.q) > 0 || vc.closed || chanReady(rv)
+}
+
+// take removes the next value (call only when ready).
+func (vc *vchan) take(rv reflect.Value) (interface{}, bool) {
+	if len(vc.q) > 0 {
+		v := vc.q[0]
+		vc.q = vc.q[1:]
+		vc.taken++
+		return v, true
+	}
+	if vc.closed {
+		return nil, false
+	}
+	x, ok := rv.TryRecv()
+	if !ok || !x.IsValid() {
+		return nil, false
+	}
+	return x.Interface(), true
+}
+
+func controlled() *rt.World {
+	if rt.CurMode == rt.Free {
+		return nil
+	}
+	w := rt.W
+	if w == nil || w.Dead() {
+		exitGoroutine()
+	}
+	return w
+}
+
+// Send replaces `ch <- v`.
+func Send[T any](ch chan<- T, v T) {
+	w := controlled()
+	if w == nil {
+		ch <- v
+		return
+	}
+	vc, _ := chanOf(w, ch)
+	if vc == nil {
+		if w.Cur != nil {
+			w.Point(rt.Op{Kind: rt.OpSend, Obj: ch, Enabled: func() bool { return false }})
+		}
+		return
+	}
+	if vc.closed {
+		panic("send on closed channel")
+	}
+	if vc.cap > 0 {
+		if w.Cur != nil {
+			w.Point(rt.Op{Kind: rt.OpSend, Obj: ch, Enabled: func() bool { return len(vc.q) < vc.cap || vc.closed }})
+		}
+		if vc.closed {
+			panic("send on closed channel")
+		}
+		vc.q = append(vc.q, v)
+		vc.sent++
+		return
+	}
+	// arriving at the send is a scheduling point of its own (others may run before the offer is made)
+	if w.Cur != nil {
+		w.Point(rt.Op{Kind: rt.OpYield, Obj: ch})
+	}
+	vc.q = append(vc.q, v)
+	vc.sent++
+	my := vc.sent
+	if w.Cur != nil {
+		w.Point(rt.Op{Kind: rt.OpSend, Obj: ch, Enabled: func() bool { return vc.taken >= my }})
+	}
+}
+
+// Recv2 replaces `v, ok := <-ch`.
+func Recv2[T any](ch <-chan T) (T, bool) {
+	w := controlled()
+	if w == nil {
+		v, ok := <-ch
+		return v, ok
+	}
+	vc, rv := chanOf(w, ch)
+	if w.Cur != nil {
+		w.Point(rt.Op{Kind: rt.OpRecv, Obj: ch, Enabled: func() bool { return vc.ready(rv) }})
+	}
+	var zero T
+	if vc == nil || !vc.ready(rv) {
+		panic("verifrt: receive scheduled on a channel that is not ready")
+	}
+	x, ok := vc.take(rv)
+	if !ok {
+		return zero, false
+	}
+	v, _ := x.(T)
+	return v, true
+}
+
+// Recv replaces `<-ch` used as an expression or statement.
+func Recv[T any](ch <-chan T) T {
+	v, _ := Recv2(ch)
+	return v
+}
+
+// Close replaces close(ch).
+func Close[T any](ch chan<- T) {
+	w := controlled()
+	if w != nil {
+		if vc, _ := chanOf(w, ch); vc != nil {
+			vc.closed = true
+		}
+	}
+	close(ch)
+}
+
+// Cast gives the value SelectB received the static type of the channel's elements.
+func Cast[T any](ch <-chan T, v interface{}) T {
+	x, _ := v.(T)
+	return x
+}
+
+// SelectB replaces a select statement whose cases are receives (binding or not).  It returns the
+// index of the chosen case (-1: default), the value received and the "ok" of the receive.
+func SelectB(hasDefault bool, chans ...interface{}) (int, interface{}, bool) {
+	if rt.CurMode == rt.Free {
+		w := rt.CurWorld()
+		cases := make([]reflect.SelectCase, 0, len(chans)+2)
+		for _, c := range chans {
+			cases = append(cases, reflect.SelectCase{Dir: reflect.SelectRecv, Chan: reflect.ValueOf(c)})
+		}
+		cases = append(cases, reflect.SelectCase{Dir: reflect.SelectRecv, Chan: reflect.ValueOf(w.DeadCh())})
+		if hasDefault {
+			cases = append(cases, reflect.SelectCase{Dir: reflect.SelectDefault})
+		}
+		i, recv, ok := reflect.Select(cases)
+		if i == len(chans) {
+			exitGoroutine()
+		}
+		if i > len(chans) {
+			return -1, nil, false
+		}
+		if !ok || !recv.IsValid() || !recv.CanInterface() {
+			return i, nil, ok
+		}
+		return i, recv.Interface(), ok
+	}
+	w := controlled()
+	vcs := make([]*vchan, len(chans))
+	rvs := make([]reflect.Value, len(chans))
+	for i, c := range chans {
+		vcs[i], rvs[i] = chanOf(w, c)
+	}
+	ready := func() int {
+		for i := range chans {
+			if vcs[i].ready(rvs[i]) {
+				return i
+			}
+		}
+		return -1
+	}
+	if w.Cur != nil {
+		w.Point(rt.Op{Kind: rt.OpSelect, Obj: chans, Enabled: func() bool { return hasDefault || ready() >= 0 }})
+	}
+	i := ready()
+	if i < 0 {
+		if hasDefault {
+			return -1, nil, false
+		}
+		panic("verifrt: SelectB scheduled with no ready case")
+	}
+	x, ok := vcs[i].take(rvs[i])
+	return i, x, ok
+}
